@@ -137,7 +137,7 @@ def main() -> int:
     ok = ok and hit
     shutil.rmtree(d, ignore_errors=True)
     # ---- non-vacuity of WalrusIf.tla: the rules of the pinned commit and of the first repair must be refuted
-    for variant in ("pinned", "private"):
+    for variant in ("pinned", "private", "noaug"):
         d = scratch("walrusbug")
         shutil.copy(spec / "WalrusIf.tla", d / "WalrusIf.tla")
         (d / "WalrusIf.cfg").write_text((spec / "WalrusIf.cfg").read_text().replace('RuleVariant = "tree"', f'RuleVariant = "{variant}"'))
